@@ -72,3 +72,13 @@ def detach(op, t):
     scale = op(t._scale)
     zeropoint = op(t._zeropoint)
     return t.__class__(t._qtype, t._axis, t._group_size, t.size(), t.stride(), data, scale, zeropoint)
+
+
+@register_qbitstensor_op([torch.ops.aten.clone])
+def clone(op, t, memory_format=torch.preserve_format):
+    # Clone is required by copy.deepcopy. The memory format describes the tensor: it does not apply to
+    # the scale and zeropoint, nor to the grouped and packed payload (it does not have the shape of the tensor)
+    data = op(t._data)
+    scale = op(t._scale)
+    zeropoint = op(t._zeropoint)
+    return t.__class__(t._qtype, t._axis, t._group_size, t.size(), t.stride(), data, scale, zeropoint)
